@@ -8,6 +8,7 @@ import (
 	"bytes"
 	"errors"
 	"fmt"
+	"strings"
 	"testing"
 
 	"golang.org/x/sys/unix"
@@ -422,6 +423,56 @@ func pendingOutWorld(mode string) *world {
 	return w
 }
 
+// inClientWorld: the same oracle on the client side: a Client enrols one end of a socketpair, the
+// peer thread writes the stream into the other end.
+func inClientWorld(c inCfg) sched.Scenario {
+	w := inWorld(c)
+	opts := append([]Option{WithLogger(nopLogger{}), WithNumEventLoop(1)}, w.opts...)
+	cw := &clientWorld{world: w}
+	cw.body = func(cw *clientWorld) {
+		cli, err := NewClient(&mcHandler{w}, opts...)
+		if err != nil {
+			w.violate("client:new", "NewClient: %v", err)
+			return
+		}
+		if err := cli.Start(); err != nil {
+			w.violate("client:start", "Client.Start: %v", err)
+			return
+		}
+		w.booted = true
+		nc, pfd, err := socketpairConn()
+		if err != nil {
+			w.violate("client:socketpair", "%v", err)
+			return
+		}
+		p := w.newPeer()
+		p.fd = pfd
+		done := false
+		sched.Go("peer", func() {
+			off := 0
+			for i, n := range c.segs {
+				p.send(streamBytes(off, n))
+				off += n
+				if i == len(c.segs)-1 && c.finWith {
+					p.close()
+				}
+			}
+			if !c.finWith {
+				sched.WaitIdle()
+				p.close()
+			}
+			done = true
+		})
+		if _, err := cli.Enroll(nc); err != nil {
+			w.violate("client:enroll", "Client.Enroll: %v", err)
+		}
+		sched.BlockUntil(func() bool { return done })
+		sched.WaitIdle()
+		w.runErr = cli.Stop()
+	}
+	return cw
+}
+
 func inConfigs(thorough bool) []inCfg {
 	var out []inCfg
 	segs := [][]int{{500, 600}, {1024, 1}, {1500}, {1, 2, 1024}, {600, 600, 600}}
@@ -460,12 +511,23 @@ func inSchedConfigs() ([]sched.Config, func(string) *sched.Config) {
 		out = append(out, sched.Config{Property: "C01", Name: c.name, Bounds: bounds, Horizon: 20000, Deadline: seqmc.Deadline(), DelayBounded: true, New: func() sched.Scenario { return inWorld(c) }})
 	}
 	for _, mode := range []string{"LT", "ET"} {
+		for _, segs := range [][]int{{500, 600}, {1500}} {
+			c := inCfg{name: fmt.Sprintf("in/client/%s/%v/fin=true", mode, segs), mode: mode, segs: segs, finWith: true, chain: true}
+			out = append(out, sched.Config{Property: "C01", Name: c.name, Bounds: bounds, Horizon: 20000, Deadline: seqmc.Deadline(), DelayBounded: true, New: func() sched.Scenario { return inClientWorld(c) }})
+		}
+	}
+	for _, mode := range []string{"LT", "ET"} {
 		mode := mode
 		out = append(out, sched.Config{Property: "C01", Name: "in/pending-outbound-then-close/" + mode, Bounds: engineBounds(1, 2, 0), Horizon: 20000, Deadline: seqmc.Deadline(), DelayBounded: true,
 			New: func() sched.Scenario { return pendingOutWorld(mode) }})
 	}
 	if !thorough {
 		keep := map[string]bool{"in/pending-outbound-then-close/LT": true, "in/pending-outbound-then-close/ET": true}
+		for _, c := range out {
+			if strings.HasPrefix(c.Name, "in/client/") {
+				keep[c.Name] = true
+			}
+		}
 		for _, c := range inConfigs(false) {
 			keep[c.name] = true
 		}
